@@ -53,7 +53,7 @@ struct Ast {
 };
 
 struct Layout {
-  int style = 0;       // 0 canonical, 1 free
+  int style = 0;       // 0 canonical, 1 free, 2 dense (as few lines as possible)
   uint64_t seed = 1;   // drives every layout decision
   int nfiles = 1;      // target number of files (main + included)
   int spelling = 0;    // 0 upper, 1 capitalised, 2 lower, 3 mixed
@@ -112,6 +112,8 @@ struct GenParams {
   unsigned macros = 0;
   bool loop_only_bias = false;    // C16 liveness: no WHILE / GOTO / IF
   bool call_heavy = false;        // C19 / C16
+  bool init_vars = false;         // routines start by giving some variables non-zero values, so that loops iterate
+  bool stop_in_callee = false;    // a STOP statement is placed inside a called program
 };
 Ast generate_ast(Rng &rng, const GenParams &gp);
 
